@@ -138,9 +138,18 @@ def handlePack (j : Json) : R Json := do
   return jObj [("rows", rowsJ), ("scope", toJson (feats.all fun f => collOK L f.loc)),
                ("region_ok", toJson (regionOK c))]
 
+/-- the collection constructor on one location -/
+def handleConstruct (j : Json) : R Json := do
+  let l ← locOfJson (← fld j "loc")
+  let L ← intF j "L"
+  let res := match collectionInit l with
+    | .ok => "ok" | .valueError => "value-error" | .assertion => "assertion"
+  return jObj [("init", Json.str res), ("coll_ok", toJson (collOK L l))]
+
 def handle (j : Json) : R Json := do
   match (strF j "kind").toOption.getD "regions" with
   | "pack" => handlePack j
+  | "construct" => handleConstruct j
   | _ => do
     let regions ← listOf handleRegion (← fld j "regions")
     return jObj [("regions", jArr regions)]
